@@ -132,33 +132,11 @@ pub fn cmp_in_place(lhs: &[Word], rhs: &[Word]) -> (ret: Ordering)
 
 pub mod gcd_lehmer_stub {
 use super::*;
-/// integer/src/gcd/mod.rs:47 gcd_ext_in_place -> lehmer.rs:346 (Lehmer's algorithm: NOT verified, ASSUMED).
-/// Doc comment: "assumes lhs > rhs. If g = gcd(lhs, rhs), lhs * a + rhs * b = g, then g is stored in rhs, b (unsigned) is
-/// stored in lhs, and the returned tuple is (length of g, length of b, sign of b)".  (`debug_assert!(cmp_in_place(lhs,
-/// rhs).is_ge())`, which needs both top words non-zero; words above the returned lengths are scratch garbage.)
-#[verifier::external_body]
-pub fn gcd_ext_in_place(lhs: &mut [Word], rhs: &mut [Word], memory: &mut Memory) -> (ret: (usize, usize, Sign))
-    requires 2 <= old(rhs)@.len() <= old(lhs)@.len(),
-        old(lhs)@[old(lhs)@.len() - 1] != 0, old(rhs)@[old(rhs)@.len() - 1] != 0,
-        val(old(lhs)@) > val(old(rhs)@),
-    ensures final(lhs)@.len() == old(lhs)@.len(), final(rhs)@.len() == old(rhs)@.len(),
-        1 <= ret.0 <= old(rhs)@.len(), ret.1 <= old(lhs)@.len(),
-        inplace_gcd_ext_post(val(old(lhs)@), val(old(rhs)@), val(final(rhs)@.subrange(0, ret.0 as int)), ret.2,
-            val(final(lhs)@.subrange(0, ret.1 as int))),
-{ unimplemented!() }
-
-/// integer/src/gcd/mod.rs:23 gcd_in_place -> lehmer.rs (NOT verified, ASSUMED).  Doc comment: "assumes lhs > rhs. The
-/// result is stored in the low bits of lhs or rhs. The first returned value is the word length of result number, and
-/// the second returned value determine if the result is in lhs (false) or rhs (true)"
-#[verifier::external_body]
-pub fn gcd_in_place(lhs: &mut [Word], rhs: &mut [Word], memory: &mut Memory) -> (ret: (usize, bool))
-    requires 2 <= old(rhs)@.len() <= old(lhs)@.len(),
-        old(lhs)@[old(lhs)@.len() - 1] != 0, old(rhs)@[old(rhs)@.len() - 1] != 0,
-        val(old(lhs)@) > val(old(rhs)@),
-    ensures final(lhs)@.len() == old(lhs)@.len(), final(rhs)@.len() == old(rhs)@.len(),
-        ret.1 ==> ret.0 <= old(rhs)@.len() && gcdo_is_gcd(val(final(rhs)@.subrange(0, ret.0 as int)), val(old(lhs)@), val(old(rhs)@)),
-        !ret.1 ==> ret.0 <= old(lhs)@.len() && gcdo_is_gcd(val(final(lhs)@.subrange(0, ret.0 as int)), val(old(lhs)@), val(old(rhs)@)),
-{ unimplemented!() }
+// integer/src/gcd/mod.rs gcd_ext_in_place / gcd_in_place (-> lehmer.rs, Lehmer's algorithm): PROVED in units int_leh_mod /
+// int_leh_gcd_ext / int_leh_gcd / int_leh_step / int_leh_guess / int_leh_top; the contracts come from their annotated
+// copies (one source of truth).
+//@@ SIG integer/lehmer/mod_gcd_ext_in_place.rs
+//@@ SIG integer/lehmer/mod_gcd_in_place.rs
 
 /// gcd/mod.rs:33, :56 -> lehmer::memory_requirement_(ext_)up_to -> div::memory_requirement_exact
 /// (`assert!(lhs_len >= rhs_len && rhs_len >= 2)`); the Layout itself is opaque (sizing not verified)
